@@ -103,7 +103,12 @@ def gen_objects(rng, s):
     n = rng.choice([0, 1, 3, 10, 20, 40, 40, 40])
     for _ in range(n):
         k = rng.random()
-        if k < 0.5:
+        if cands and k < 0.12:
+            # same position (or same X) as an earlier object: ties are decided by OAM order
+            y, x = cands[rng.randrange(len(cands))][:2]
+            if rng.random() < 0.5:
+                y += rng.randrange(-7, 8)
+        elif k < 0.5:
             cy, cx = rng.choice(clusters)
             y, x = cy + rng.randrange(-7, 8), cx + rng.randrange(-7, 8)
         elif k < 0.7:
